@@ -211,12 +211,14 @@ theorem C10_timeout_cancels (e : Env) (f : Nat) (w : Store) (i : Nat) (d fin0 fi
     exact stopInv_allInv c1 (tickF_good e he f w c c1 w1 trc hw hg hc).1.1
 
 /-- ... and otherwise (child completed, or not yet past the deadline) the Timeout mirrors the child and leaves it
-    alone -/
+    alone. `hv`: the child's tick answered a status (it always does under `ValidEnv`, `tickF_good`); a child answering
+    INVALID would make the Timeout answer INVALID too and `Decorator.stop(INVALID)` stop the child once more. -/
 theorem C10_timeout_mirrors (e : Env) (f : Nat) (w : Store) (i : Nat) (d fin0 fin : Int) (st : Status)
     (c n' c1 : Node) (w' w1 : Store) (tr trc : List Ev)
     (hfin : fin = if st ≠ .running then e.now + d else fin0)
     (h : tickF (f+1) e w (dec i (.timeout d fin0) st c) = .ok (n', w', tr))
-    (hc : tickF f e w c = .ok (c1, w1, trc)) (hno : ¬ (c1.status = .running ∧ e.now > fin)) :
+    (hc : tickF f e w c = .ok (c1, w1, trc)) (hno : ¬ (c1.status = .running ∧ e.now > fin))
+    (hv : c1.status ≠ .invalid) :
     n'.status = c1.status ∧ n'.children = [c1] ∧ w' = w1 ∧ tr = [.enter i] ++ trc ++ [.yld i c1.status] := by
   obtain ⟨c1', w1', trc', k0, k1, ns, cancel, hk0, h1, hu, hp, h3, h4⟩ :=
     C09_tick_result e f w i _ st c n' w' tr rfl h
@@ -228,10 +230,11 @@ theorem C10_timeout_mirrors (e : Env) (f : Nat) (w : Store) (i : Nat) (d fin0 fi
   rw [C10_timeout_update, if_neg hno] at hu
   simp only [Prod.mk.injEq] at hu
   obtain ⟨rfl, rfl, rfl⟩ := hu
-  have hcond : ¬ (false = true ∨ (c1.status ≠ .running ∧ c1.status = .running)) := by
-    intro hh; rcases hh with hh | hh
+  have hcond : ¬ (false = true ∨ (c1.status ≠ .running ∧ (c1.status = .invalid ∨ c1.status = .running))) := by
+    intro hh; rcases hh with hh | ⟨hh1, hh2 | hh2⟩
     · cases hh
-    · exact hh.1 hh.2
+    · exact hv hh2
+    · exact hh1 hh2
   rw [if_neg hcond] at h3 h4
   subst h3 h4
   refine ⟨rfl, rfl, ?_, by simp⟩
@@ -333,12 +336,8 @@ theorem C10_oneshot_tick (e : Env) (f : Nat) (w : Store) (i : Nat) (b : Bool) (s
   subst hk
   simp only [decUpdate, Prod.mk.injEq] at hu
   obtain ⟨rfl, rfl, rfl⟩ := hu
-  have hcond : ¬ (false = true ∨ (c1.status ≠ .running ∧ c1.status = .running)) := by
-    intro hh; rcases hh with hh | hh
-    · cases hh
-    · exact hh.1 hh.2
-  rw [if_neg hcond] at h3
-  refine ⟨c1, w1, trc, c1, h1, ?_⟩
+  refine ⟨c1, w1, trc, (if false = true ∨ (c1.status ≠ .running ∧ (c1.status = .invalid ∨ c1.status = .running))
+    then (stopInv c1).1 else c1), h1, ?_⟩
   rw [h3]
   congr 1
   cases hs : c1.status <;> cases b <;> simp [decTerminate]
